@@ -66,7 +66,7 @@ def run(tier, seed):
         pads = sorted({T - L0 + dlt for T in (1024, 2048, 4096) for dlt in (-1, 0, 1) if T - L0 + dlt >= 0})
         itmz_zips = itmz_of([base_doc(p_) for p_ in pads])
     chk.cov["itmz_mapdata_sizes"] = [L for L, _ in itmz_zips]
-    for variant in (("asan", "nopool") if True else ("asan",)):
+    for variant in tuple(os.environ.get("VERIF_C01_VARIANTS", "asan,nopool").split(",")):
         exe = build.build_harness(variant)
         segs = []; per = 40
         vcases = cases if variant == "asan" or tier == "thorough" else cases[::3]
@@ -135,7 +135,13 @@ def run(tier, seed):
                 if k in ("conv",): trace.append(dict(e="conv", null=ev["null"])); nconv += 1
                 elif k in ("critic", "import"): trace.append(dict(e=k, null=ev.get("null", False), len=ev.get("len", 0), strlen=ev.get("strlen", 0), cap=ev.get("cap", 1 << 30)))
                 elif k in ("meta", "eng", "tree", "inspect", "pool", "transclude"): trace.append(dict(e=k, null=False))
-                elif k in ("exit", "aborted", "timeout"): trace.append(dict(e=k, null=True))
+                elif k == "exit":
+                    sl = ev.get("sline", 0); cmdline = seg[sl - 1] if 0 < sl <= len(seg) else "?"
+                    sid_ = cmdline.split("\t")[2] if cmdline.startswith(("conv", "meta", "critic", "opml2text")) and len(cmdline.split("\t")) > 2 else "?"
+                    sl_ = [x for x in seg[:sl] if x.startswith("src\t%s\t" % sid_)]
+                    src_ = bytes.fromhex(sl_[-1].split("\t")[2][1:]).decode("latin-1")[:400] if sl_ and sl_[-1].split("\t")[2].startswith("=") else ""
+                    trace.append(dict(e=k, null=True, code=ev.get("code", -1), command=" ".join(cmdline.split("\t")[:1] + cmdline.split("\t")[3:7]), source=src_))
+                elif k in ("aborted", "timeout"): trace.append(dict(e=k, null=True))
             if r["status"] != "ok":
                 problems.append((variant, seg, r))
                 if not trace or trace[-1]["e"] not in ("aborted", "timeout", "exit"): trace.append(dict(e=r["status"], null=True))
@@ -148,6 +154,9 @@ def run(tier, seed):
             ev = seg[idx]
             if ev["e"] in ("critic", "import"):
                 problems.append((variant, ["malformed result"], dict(status="malformed", san="", ev=ev)))
+            elif ev["e"] == "exit":
+                # exit() called from inside the library: the harness catches it and goes on, so the segment itself ended normally
+                problems.append((variant, ["exit from library"], dict(status="exit-from-library", san="", ev=ev, idx=idx, nseg=len(seg))))
     chk.cov["evaluations"] = nconv
     chk.cov["distinct_nontrivial"] = len(cases)
     chk.cov["variants"] = {k: dict(segments=v[0], rejected=v[1]) for k, v in trace_by_variant.items()}
@@ -158,6 +167,11 @@ def run(tier, seed):
     # confirm + triage: isolate the failing command of each crashing segment
     seen = {}
     for variant, seg, r in problems:
+        if r["status"] == "exit-from-library":
+            key = "exit-from-library"
+            if key not in seen:
+                seen[key] = 1; chk.report(key, "[%s build] the library called exit() during a call (caught by the harness): event %d of its segment, %s" % (variant, r["idx"], json.dumps(r["ev"])), dict(ev=r["ev"], variant=variant))
+            continue
         if r["status"] == "malformed":
             key = "malformed-string-result:%s" % r["ev"]["e"]
             if key not in seen:
